@@ -52,7 +52,7 @@ fn pair_strategy(rec: std::sync::Arc<Vec<Vec<u8>>>) -> BoxedStrategy<Pair> {
         1 => gen::junk_line(),
     ];
     let obs = || prop_oneof![1 => Just(None), 2 => (-80.0f64..80.0, -170.0f64..170.0).prop_map(|(a, b)| Some(((a * 100.0).round() / 100.0, (b * 100.0).round() / 100.0)))];
-    let shared = (any::<bool>(), any::<bool>(), prop_oneof![3 => Just(None), 1 => proptest::sample::subsequence(bits::NINE.to_vec(), 2..8).prop_map(Some)], proptest::sample::select(vec![60i64, 600, 100_000]));
+    let shared = (any::<bool>(), any::<bool>(), prop_oneof![3 => Just(None), 1 => proptest::sample::subsequence(bits::NINE.to_vec(), 2..8).prop_map(Some)], proptest::sample::select(vec![0i64, 60, 600, 100_000]));
     (shared, presentation(), presentation(), obs(), obs(), proptest::collection::vec(line, 1..60))
         .prop_map(|((u, r, f, d), pa, pb, obs_a, obs_b, lines)| {
             let mk = |p: (Vec<String>, Vec<String>, bool, i64, Option<Vec<u32>>, bool)| Opts { u, r, f: f.clone(), d, i: p.0, o: p.1, c: p.2, upd: p.3, m: p.4, dl: p.5 };
